@@ -600,6 +600,8 @@ class World:
     def havoc(self, it, fr, nm, spec):
         cur = fr.lookup(nm)
         decl = (spec.get('havoc') or {}).get(nm)
+        if decl == 'SSet':
+            decl = None
         pc = it.path
         facts = []
         if decl is not None:
@@ -618,6 +620,9 @@ class World:
             new = cur
         elif isinstance(cur, SMapCell):
             cur.m = S.TMap(cur.m.key_t, cur.m.val_t).fresh(nm, facts)
+            new = cur
+        elif isinstance(cur, S.SSet):
+            cur.arr = S.TSet(cur.elem).fresh(nm).arr
             new = cur
         elif isinstance(cur, WriteLog):
             cur.keys.seq = TSeq(cur.keys.seq.elem).fresh(nm + '.keys', facts)
